@@ -581,7 +581,8 @@ func deriveTripCount(loop *Loop) {
 	if lo, hi, ok := intRange(iv.Phi.Type()); ok {
 		// ... and one that is arithmetic on a value not known here (i < n-5, i := n+100 on a uint8 n)
 		// wraps for some arguments; in a 64-bit type that takes values nobody loops over.
-		if hi.BitLen() < 63 && (hasArithmetic(iv.Start) || hasArithmetic(limitSCEV)) {
+		// An unsigned type of any width underflows at zero (i := n-1 with n = 0).
+		if (hi.BitLen() < 63 || lo.Sign() == 0) && (hasArithmetic(iv.Start) || hasArithmetic(limitSCEV)) {
 			loop.TripCount = &SCEVUnknown{Value: nil}
 			return
 		}
